@@ -29,6 +29,9 @@ TRUSTED = [
     "the tracing wrappers in harness/prop_C08.py (module attributes replaced at run time; frames identified with "
     "sys._getframe) and the tree reconstruction",
     "CPython's recursion limit as the stand-in for 'exhausting the interpreter stack' (default limit, 1000 frames)",
+    "w02's reduced parser model coq/Model/Parser.v (imported by Model/CycleParser.v) for the termination theorems; its "
+    "predicted nesting is compared with the observed nesting on the enumerated reference graphs",
+    "the registration contract of C08_all_present is a hypothesis about the parser body, evaluated on every trace",
 ]
 
 def src_root() -> str:
@@ -236,7 +239,8 @@ def run_impl(case: dict) -> dict:
         signal.setitimer(signal.ITIMER_REAL, 0)
     out["seconds"] = round(time.time() - t0, 3)
     out["events"] = TR.events
-    out["sanitized"] = {n: NameSanitizer.sanitize_class_name(n) for n in case["schemas"]}
+    tops = {e["name"] for e in TR.events if e.get("k") == "enter" and e.get("parent") == 0 and e.get("name")}
+    out["sanitized"] = {n: NameSanitizer.sanitize_class_name(n) for n in list(case["schemas"]) + sorted(tops)}
     TR.reset()
     return out
 
@@ -275,7 +279,7 @@ def run_workers(cases: list[dict], jobs: int = 12) -> list[dict]:
     results: list[dict | None] = [None] * len(cases)
     for p, idxs, fo in procs:
         try:
-            _, err = p.communicate(timeout=CASE_BUDGET_S * 4 + 2 * len(idxs))
+            _, err = p.communicate(timeout=CASE_BUDGET_S * 4 + 30 * len(idxs))  # generous: a killed worker reads as a failure
         except subprocess.TimeoutExpired:
             p.kill()
             _, err = p.communicate()
@@ -284,7 +288,7 @@ def run_workers(cases: list[dict], jobs: int = 12) -> list[dict]:
             if k < len(lines):
                 results[i] = json.loads(lines[k])
             else:
-                results[i] = {"error": {"type": "WorkerDied", "msg": (err or "")[-300:]}, "events": [],
+                results[i] = {"error": {"type": "WorkerDied", "msg": f"rc={p.returncode} " + (err or "")[-300:]}, "events": [],
                               "schemas": None, "sanitized": {}, "seconds": None}
     for f in tmp.glob("*"):
         f.unlink()
@@ -530,7 +534,9 @@ def c_case(case: dict, rb: dict) -> str:
     from framework import cbool, clist, cpair, cstr
     md = case["max_depth"] if case.get("max_depth") is not None else 150
     obs = clist(clist(str(v) for v in enc_event(e)) for e in rb["used"])
-    inp = f"{{| i_md := {md}; i_tops := {clist(c_top(t) for t in rb['tops'])}; i_trunc := {cbool(rb['truncated'])} |}}"
+    alt = clist(cpair(cstr(a), cstr(b)) for a, b in sorted(rb.get("sanitized", {}).items()) if a != b)
+    inp = (f"{{| i_md := {md}; i_tops := {clist(c_top(t) for t in rb['tops'])}; i_trunc := {cbool(rb['truncated'])}; "
+           f"i_alt := {alt} |}}")
     return f"({inp}, ({cbool(rb['truncated'])}, {obs}))"
 
 
@@ -711,9 +717,31 @@ def depth_cases(thorough: bool) -> list[dict]:
     return out
 
 
+def mask_case(k: int, mask: int, md: int) -> dict:
+    """reference graph number `mask` over k named object schemas (Model/CycleParser.gspec): bit i*k+j = schema i has
+    a property p<j> that is a $ref to schema j"""
+    names = [chr(65 + i) for i in range(k)]
+    return {"kind": "refgraph", "max_depth": md, "op": None, "mask": [k, mask],
+            "schemas": {names[i]: {"type": "object",
+                                   "properties": {"p" + chr(97 + j): R(names[j]) for j in range(k) if (mask >> (i * k + j)) & 1}}
+                        for i in range(k)}}
+
+
+def refgraph_cases(rng, thorough: bool) -> list[dict]:
+    allm = [(k, m) for k in (1, 2, 3) for m in range(2 ** (k * k))]
+    lims = [1, 2, 3, 4, 5, 20, 150]
+    if thorough:
+        return [mask_case(k, m, md) for (k, m) in allm for md in (1, 3, 4, 150)]
+    picked = [(3, 484, 4), (3, 484, 150), (3, 106, 3)] + [(k, m, rng.choice(lims)) for (k, m) in rng.sample(allm, 60)]
+    return [mask_case(k, m, md) for (k, m, md) in picked]
+
+
 def malformed(rng) -> list[dict]:
     """deliberately odd documents: dangling refs, malformed refs, null nodes, non-object shapes"""
     out = []
+    out.append({"kind": "malformed", "max_depth": None, "op": None,
+                "schemas": {"A": {"type": "object", "properties": {"n": R("Nil")}}, "Nil": None, "Self": R("Self"),
+                            "P": R("Q"), "Q": R("P"), "snake_case": {"type": "object"}}})
     out.append({"kind": "malformed", "max_depth": None, "op": None,
                 "schemas": {"A": {"type": "object", "properties": {"x": R("Nope"), "y": {"$ref": "#/components/schemas/"}}},
                             "B": {"type": "array"}, "C": {"type": ["object", "null"], "properties": {"a": R("A")}}}})
@@ -729,6 +757,7 @@ def malformed(rng) -> list[dict]:
 # ---------------------------------------------------------------- entry
 def evaluate(case: dict, res: dict) -> dict:
     rb = rebuild(res["events"])
+    rb["sanitized"] = res.get("sanitized", {})
     fails = oracle(case, res, rb)
     obs = {"error": res["error"], "events": len(res["events"]), "used_events": len(rb["used"]),
            "truncated": rb["truncated"], "fell": rb["fell"], "schemas": res.get("schemas"),
@@ -761,7 +790,7 @@ def main(chk, replay: dict | None = None) -> int:
         inputs += rng.sample(enum_self_multi(), 40) + enum_small(1) + rng.sample(enum_small(2), 250)
         inputs += rng.sample(enum_three(rng, 1), 150)
         inputs += [random_graph(rng) for _ in range(150)]
-    inputs += depth_cases(chk.thorough) + malformed(rng)
+    inputs += depth_cases(chk.thorough) + malformed(rng) + refgraph_cases(rng, chk.thorough)
     t0 = time.time()
     results = run_workers(inputs)
     chk.say(f"[C08] implementation runs: {len(inputs)} documents in {time.time() - t0:.1f}s")
@@ -819,9 +848,29 @@ def main(chk, replay: dict | None = None) -> int:
     if chk.model_ok:
         codes = chk.coq_eval("From PG Require Import Lib.Strs Model.Cycle Corr.C08.", "input * obs",
                              [c_case(c["input"], c["_rb"]) for c in cases], "run", shard=shard)
+    if codes is not None:
+        chk.cov["input_distribution"]["guard_bits_false"] = {
+            name: sum(1 for v in codes if (v >> k) & 1)
+            for k, name in ((1, "F08a_nesting_beyond_limit"), (2, "F08b_fallthrough"), (3, "empty_name"),
+                            (4, "state_dropped_elsewhere"), (5, "registration_contract"))}
     for c in cases:
         del c["_rb"]
-    chk.decide(cases, codes, {1: "F08a", 2: "F08b"},
+    # second relation: nesting predicted by the fuel-based parser model = nesting observed, on the enumerated graphs
+    ng = [c for c in cases if c["input"].get("mask") and not c["obs"]["error"]]
+    if chk.model_ok and ng:
+        ncodes = chk.coq_eval("From PG Require Import Lib.Strs Corr.C08.", "nat * N * N * nat",
+                              [f"({c['input']['mask'][0]}%nat, {c['input']['mask'][1]}, {c['input']['max_depth']}, "
+                               f"{c['obs']['max_nest']}%nat)" for c in ng], "run_nest", shard=400, tag="nest")
+        bad = [c for c, v in zip(ng, ncodes or []) if v]
+        chk.cov["input_distribution"]["nesting_relation"] = {"compared": len(ng), "mismatches": len(bad),
+                                                             "max_nesting_seen": max(c["obs"]["max_nest"] for c in ng)}
+        if ncodes is not None and bad:
+            first = bad[0]
+            chk.broken.append({"kind": "correspondence", "name": "Corr.C08.run_nest: needed fuel (Model/Parser) = max nesting observed",
+                               "mismatches": len(bad), "first": {"input": first["input"], "obs": first["obs"]}})
+            chk.say(f"[C08] nesting relation broken on {len(bad)} graph(s); first: {json.dumps(first['input'])[:300]} "
+                    f"observed max nesting {first['obs']['max_nest']}")
+    chk.decide(cases, codes, {1: "F08a", 2: "F08b", 5: "F08e"},
                "Corr.C08.run: Coq trace of the rebuilt call trees = tracker snapshots recorded at every enter/exit")
     return chk.finish(TRUSTED,
                       rule="corpus + enumerated graphs over <=3 named schemas x 8 edge kinds (+ node shapes, declaration "
